@@ -488,7 +488,7 @@ Definition entity (pt : ptype) (acc : attr_acc) (lits : list str) (dec : str) : 
             end;
   let '(n, points, init) := npi in
   do init' <- match init with
-              | Some (_ :: _ as i) => do t <- restore (comma_space i) lits; Ok (Some t)
+              | Some ((_ :: _) as i) => do t <- restore (comma_space i) lits; Ok (Some t)
               | Some [] => Ok (Some [])
               | None => Ok None
               end;
@@ -779,7 +779,8 @@ Definition implicit_type (name : str) : str :=
   end.
 
 Definition implicit_var (name : str) : var :=
-  mkvar name (implicit_type name) None None None [] [] false (s "public") false false None [].
+  let (n, dim) := split_name name in
+  mkvar n (implicit_type name) None None None [] [] false (s "public") false false None dim.
 
 (* a variable built with the defaults of FortranVariable and a parsed type *)
 Definition typed_var (name : str) (pt : ptype) : var :=
@@ -837,7 +838,10 @@ Fixpoint body_go (lines : list str) (st : attr_state) (vars : list var) (permiss
     | None =>
       if is_declaration m then
         do vs <- line_to_variables m lits permission; body_go lines' st (vars ++ vs) permission
-      else Unmodelled (s "statement that is neither a declaration nor an attribute statement")
+      else match match_ci (s "intent") m with
+           | Some _ => body_go lines' st vars permission   (* INTENT(IN OUT): matched by no pattern, skipped *)
+           | None => Unmodelled (s "statement that is neither a declaration nor an attribute statement")
+           end
     end
   end.
 
